@@ -790,14 +790,15 @@ def _typed_level(out, spec, case, meta_kw):
         out.fail("typed", "typed:%s:constructor_raises:%s" % (T.__name__, type(e).__name__), {"error": repr(e)[:300]})
         return
     edit = case.get("typed_edit") or ((case.get("edit") or {}).get(kind) if isinstance(case.get("edit"), dict) else None)
-    for name, prop in sorted(_typed_properties(T).items()):
+    # the names come from the field table, not from what the class happens to declare as properties: a content field the typed
+    # entity answers in some other way (attribute lookup hooks) is still a field the application reads and assigns by that name
+    for name in sorted(set(_typed_properties(T)) - set(fields) - set(dmf)):
+        out.label("typed_property_without_field:%s.%s" % (T.__name__, name))
+    for name in sorted(set(fields) | set(dmf)):
         if name in fields:
             k, want, new = fields[name], spec[kind].get(name), (edit or {}).get(name)
-        elif name in dmf:
-            k, want, new = dmf[name], spec[kind]["dm"].get(name), ((edit or {}).get("dm") or {}).get(name)
         else:
-            out.label("typed_property_without_field:%s.%s" % (T.__name__, name))
-            continue
+            k, want, new = dmf[name], spec[kind]["dm"].get(name), ((edit or {}).get("dm") or {}).get(name)
         if k in ("ctx", "msg", "key"):
             continue
         try:
@@ -808,7 +809,7 @@ def _typed_level(out, spec, case, meta_kw):
         if norm_scalar(k, got) != norm_scalar(k, want):
             out.fail("typed", "typed:%s.%s:getter_differs" % (T.__name__, name), {"got": _s(got), "set": _s(want)})
             return
-        if prop.fset is None or new is None:
+        if new is None:
             continue
         try:
             setattr(ent, name, val(k, new))
